@@ -134,6 +134,11 @@ LookupFailing(r) ==
 \* Only separations FROM THE CENTRE enter the clauses.  On lattice "gc" the harness therefore also uses "star"
 \* records: c = <<0,0>> is ANY sky position (lattice or not) and probe <<a,b>> lies a + b*eps degrees from it
 \* along a ray of arbitrary direction (HiGcSep(<<0,0>>, <<a,b>>) is that arc, folded at 180).
+\* Optional field  how : Seq("lookup" | "aimed")  per probe.  "aimed" (depths 13..24 only): the harness placed the probe
+\* strictly inside the trixel pid[k] - by 0.5 percent of its edge length, using its reconstruction of the mesh, which is
+\* validated against lookup_id on every run - and pid[k] is THAT trixel, the one that contains the position geometrically.
+\* (At depth >= 20 lookup_id's own edge tolerance, 1e-15 in (v_i x v_j).p, is up to a tenth of a triangle, the scale at
+\* which "fully inside" has to be judged there.)  The clauses are the same for both.
 \* -1 strictly inside the circle, 0 exactly on it (unconstrained), 1 outside
 CoverRC(r, k) == HiEdgeCmp(r.lat, r.c, r.probes[k], 1, r.rad)
 HiMember(x, s) == \E t \in DOMAIN s : s[t] = x
